@@ -45,6 +45,11 @@ def run(ctx):
     ctx.attempt("check_offset_typestate", check_offset_typestate, ctx, lib)
     ctx.attempt("check_offset_provenance", check_offset_provenance, ctx, lib)
     ctx.attempt("check_units", check_units, ctx, lib)
+    # the dead-ness of the builtins' fabricated Parse errors (classification rule) rests on the validator having
+    # checked every argument against its declared kind: the arity / per-position / kind-predicate rows (shared with C06)
+    from . import c06
+    for name in ("check_arity", "check_positions", "check_is_valid"):
+        ctx.attempt(name, getattr(c06, name), ctx, lib)
 
 
 # =============================================================================================
